@@ -176,7 +176,7 @@ class Polynomial(Expression):
         return self+(-other)
 
     def __rsub__(self, other):
-        return (-other)+self
+        return (-self)+other
 
     def __mul__(self, other):
         if not isinstance(other, Polynomial):
